@@ -216,7 +216,9 @@ def discobrackets(tree, stream, **params):
     """
     terminals = trees.terminals(tree)
     words = [terminal.data['word'] for terminal in terminals]
-    sentence = ' '.join(words)
+    sentence = ' '.join(trees.replace_chars(trees.Tree(terminal.data),
+                                            trees.BRACKETS).data['word']
+                        for terminal in terminals)
     for terminal in terminals:
         terminal.data['word'] = str(terminal.data['num'])
     try:
